@@ -1,6 +1,12 @@
 // Step executor for actor L (public API) and X (environment).
 #include <algorithm>
 
+#include <sqlite3.h>
+#include <sys/wait.h>
+#include <unistd.h>
+
+#include <cstring>
+
 #include "world.hpp"
 #include "tstate.hpp"
 
@@ -644,6 +650,33 @@ void World::exec_member_op(const Step& s)
         return;
     }
     int64_t tid = tracks[tidx].id;
+    if (s.op == "add_track" && (arg(2) & 6) == 6)
+    {
+        // the same call through a handle to a crate that has been removed (and whose id no live crate carries): it may
+        // throw or complete, but it is not an addition to any crate that exists - nothing observable may change now,
+        // and a crate created later that happens to be given the old id starts empty (model: no members)
+        int stale = -1;
+        for (size_t i = 0; i < crates.size(); ++i)
+            if (crates[i].h && !crates[i].live && !model.crates.count(crates[i].id))
+                stale = (int)i;
+        if (stale >= 0)
+        {
+            e.op = "add_track_stale";
+            e.out = call(s.fault, [&] {
+                if (arg(2) & 1)
+                    crates[stale].h->add_track(tid);
+                else
+                    crates[stale].h->add_track(*tracks[tidx].h);
+            });
+            note("add_track through a handle to removed crate " + std::to_string(crates[stale].id) + " track " + std::to_string(tid) +
+                 (e.out.threw ? " -> threw " + e.out.exc : " -> ok"));
+            // (the removed crate's own stale handle may answer differently afterwards - that is not a query result about a
+            //  crate that exists; the membership model, unchanged, judges every live crate and track)
+            probes.hit("add_track_through_stale_crate_handle");
+            after_step(e);
+            return;
+        }
+    }
     if (s.op == "add_track")
     {
         bool by_id = (arg(2) & 1) != 0;
@@ -715,7 +748,10 @@ void World::exec_env_op(const Step& s)
         // may not write (C16).
         if (!db)
             return;
+        const bool rec0 = g_disk.record_calls;
+        g_disk.record_calls = true;
         Outcome clean = call(FaultSpec{}, [&] { (void)observe(); });
+        g_disk.record_calls = rec0;
         int n = clean.stmts;
         if (n <= 0)
             return;
@@ -738,6 +774,46 @@ void World::exec_env_op(const Step& s)
                 Outcome o2 = call(f, [&] { table_read_all_unguarded(); });
                 fired += o2.fault_fired ? 1 : 0;
             }
+        }
+        // ... and real-path faults: the read is interrupted (F2), a device read / lock fails (F3), SQLite runs out of memory (F4)
+        int real_fired = 0;
+        {
+            std::vector<size_t> vi;
+            for (size_t i = 0; i < clean.vfs.size(); ++i)
+                if (clean.vfs[i].method != VM_CLOSE)
+                    vi.push_back(i);
+            int rr = 2 + (int)r.below(3);
+            for (int i = 0; i < rr && !stop; ++i)
+            {
+                FaultSpec f;
+                unsigned k = (unsigned)r.below(3);
+                if (k == 0 && clean.ticks)
+                {
+                    f.kind = FK_TICK;
+                    f.pos = (int64_t)(1 + r.below(clean.ticks));
+                }
+                else if (k == 1 && !vi.empty())
+                {
+                    auto& v = clean.vfs[vi[r.below(vi.size())]];
+                    f.kind = FK_VFS;
+                    f.method = v.method;
+                    f.role = v.role;
+                    f.pos = v.ordinal;
+                    f.persist = r.chance(1, 3) ? 1 : 0;
+                    f.code = v.method == VM_READ ? SQLITE_IOERR_READ : v.method == VM_LOCK ? SQLITE_BUSY : v.method == VM_FILESIZE ? SQLITE_IOERR_FSTAT
+                             : v.method == VM_UNLOCK ? SQLITE_IOERR_UNLOCK : v.method == VM_ACCESS ? SQLITE_IOERR_ACCESS : SQLITE_IOERR;
+                }
+                else if (clean.mallocs)
+                {
+                    f.kind = FK_MALLOC;
+                    f.pos = (int64_t)(1 + r.below(clean.mallocs));
+                }
+                else
+                    continue;
+                Outcome o = call(f, [&] { (void)observe(); });
+                real_fired += o.fault_fired ? 1 : 0;
+            }
+            probes.hit("observation_real_faults_fired", (uint64_t)real_fired);
         }
         if (g_disk.lib_writes + g_disk.lib_truncates + g_disk.lib_deletes != w0 || g_taps.total_changes() != c0)
             report("C16", "C16|observe-under-fault|" + fam() + "|disk-write", "an observation during which one statement was refused wrote to the database");
@@ -898,7 +974,153 @@ void World::exec_env_op(const Step& s)
     }
 }
 
+// Real-path faults (F2 interrupt, F3 / F3p device fault, F4 allocation failure) inside an ORDINARY history - no restore, the
+// same connection carries on afterwards.  SQLite may report such a fault after its commit point, so the verdict needs
+// the fault-free post-state of this very call in this very world.  It comes from a shadow execution: the process forks,
+// the child executes the step without the fault and sends back the observation hash and the call's statement / tick /
+// allocation / VFS-call profile (against which the fault position is resolved, so that the fault always lands inside
+// the call); the parent then executes the step with the fault.  The child shares nothing with the parent afterwards.
 void World::exec_step(const Step& s)
+{
+    const bool real = s.fault.kind == FK_TICK || s.fault.kind == FK_VFS || s.fault.kind == FK_MALLOC;
+    if (!real || !db || !plan.cfg.on_disk || plan.cfg.profile.compare(0, 6, "atomic") == 0)
+    {
+        exec_step_inner(s);
+        return;
+    }
+    struct Hdr
+    {
+        uint64_t hash;
+        int32_t valid, threw, stmts;
+        uint64_t ticks, mallocs;
+        uint32_t nvfs;
+    } hdr{};
+    std::vector<VfsCallInfo> vfs;
+    bool got = false;
+    int fds[2];
+    if (pipe(fds) == 0)
+    {
+        fflush(stdout);
+        fflush(stderr);
+        pid_t pid = fork();
+        if (pid == 0)
+        {
+            close(fds[0]);
+            alarm(30);
+            Step c = s;
+            c.fault = FaultSpec{};
+            g_disk.record_calls = true;
+            exec_step_inner(c);
+            Hdr h{};
+            h.hash = have_prev ? prev.hash() : 0;
+            h.valid = last_call.valid;
+            h.threw = last_call.threw;
+            h.stmts = last_call.stmts;
+            h.ticks = last_call.ticks;
+            h.mallocs = last_call.mallocs;
+            h.nvfs = (uint32_t)last_call.vfs.size();
+            std::string buf((const char*)&h, sizeof h);
+            for (auto& v : last_call.vfs)
+            {
+                int32_t t[3] = {v.method, v.role, v.ordinal};
+                buf.append((const char*)t, sizeof t);
+            }
+            size_t off = 0;
+            while (off < buf.size())
+            {
+                ssize_t n = write(fds[1], buf.data() + off, buf.size() - off);
+                if (n <= 0)
+                    break;
+                off += (size_t)n;
+            }
+            _exit(0);
+        }
+        close(fds[1]);
+        std::string in;
+        char tmp[4096];
+        ssize_t n;
+        while (pid > 0 && (n = read(fds[0], tmp, sizeof tmp)) > 0)
+            in.append(tmp, (size_t)n);
+        close(fds[0]);
+        if (pid > 0)
+        {
+            int st = 0;
+            waitpid(pid, &st, 0);
+        }
+        if (in.size() >= sizeof hdr)
+        {
+            memcpy(&hdr, in.data(), sizeof hdr);
+            if (in.size() == sizeof hdr + (size_t)hdr.nvfs * 12)
+            {
+                got = true;
+                for (uint32_t i = 0; i < hdr.nvfs; ++i)
+                {
+                    int32_t t[3];
+                    memcpy(t, in.data() + sizeof hdr + (size_t)i * 12, 12);
+                    vfs.push_back({t[0], t[1], t[2]});
+                }
+            }
+        }
+    }
+    Step s2 = s;
+    if (!got || !hdr.valid || hdr.threw)
+    {
+        // the step does not complete fault-free (rejected input, nothing to act on) or the shadow died: no fault
+        probes.hit("shadow_unavailable");
+        s2.fault = FaultSpec{};
+        exec_step_inner(s2);
+        return;
+    }
+    std::vector<size_t> vi;
+    for (size_t i = 0; i < vfs.size(); ++i)
+        if (vfs[i].method != VM_CLOSE)
+            vi.push_back(i);
+    if (s.fault.kind == FK_VFS)
+    {
+        if (vi.empty())
+            s2.fault = FaultSpec{};
+        else
+        {
+            auto& v = vfs[vi[(size_t)((uint64_t)s.fault.pos % vi.size())]];
+            s2.fault.method = v.method;
+            s2.fault.role = v.role;
+            s2.fault.pos = v.ordinal;
+            s2.fault.code = v.method == VM_WRITE ? ((s.fault.code & 1) ? SQLITE_FULL : SQLITE_IOERR_WRITE)
+                            : v.method == VM_READ   ? SQLITE_IOERR_READ
+                            : v.method == VM_SYNC   ? SQLITE_IOERR_FSYNC
+                            : v.method == VM_TRUNCATE ? SQLITE_IOERR_TRUNCATE
+                            : v.method == VM_DELETE ? SQLITE_IOERR_DELETE
+                            : v.method == VM_OPEN   ? SQLITE_CANTOPEN
+                            : v.method == VM_LOCK   ? SQLITE_BUSY
+                            : v.method == VM_UNLOCK ? SQLITE_IOERR_UNLOCK
+                            : v.method == VM_FILESIZE ? SQLITE_IOERR_FSTAT
+                            : v.method == VM_ACCESS ? SQLITE_IOERR_ACCESS
+                                                    : SQLITE_IOERR;
+        }
+    }
+    else if (s.fault.kind == FK_TICK)
+        s2.fault.pos = hdr.ticks ? (int64_t)(1 + (uint64_t)s.fault.pos % hdr.ticks) : 1;
+    else
+        s2.fault.pos = hdr.mallocs ? (int64_t)(1 + (uint64_t)s.fault.pos % hdr.mallocs) : 1;
+    probes.hit("shadow_runs");
+    const uint64_t before_hash = have_prev ? prev.hash() : 0;
+    have_accept_post = true;
+    accept_post_hash = hdr.hash;
+    exec_step_inner(s2);
+    have_accept_post = false;
+    if (last_call.valid && last_call.fault_fired)
+        probes.hit(last_call.threw ? "history_real_fault_threw" : "history_real_fault_absorbed");
+    if (!stop && last_call.valid && last_call.threw && have_prev && prev.hash() == hdr.hash && hdr.hash != before_hash)
+    {
+        // reported after the commit point (allowed): the effect is complete although the call threw; the reference model
+        // did not advance and the handle a create call would have returned is lost, so the history ends here
+        probes.hit("history_threw_but_committed");
+        stop = true;
+        stop_reason = "a real-path fault was reported after the commit point (allowed outcome); the model cannot follow";
+    }
+}
+
+void World::exec_step_inner(const Step& s)
 {
     last_call = LastCall{};
     last_written.clear();
